@@ -48,6 +48,9 @@ pub struct Request {
 pub enum Step {
     One(Request),
     Concurrent(Vec<Request>),
+    /// a peer commits a transaction (fresh rows nobody else touches) and this node merges it - the
+    /// peer's version numbers overlap with this node's own (versions are per actor)
+    Peer { rows: u8, tag: u16 },
 }
 
 #[derive(Debug, Clone, Serialize, Deserialize)]
@@ -95,6 +98,7 @@ pub fn case_strategy(max_steps: usize) -> impl Strategy<Value = Case> {
         prop_oneof![
             6 => request_strategy().prop_map(Step::One),
             1 => proptest::collection::vec(request_strategy(), 2..=6).prop_map(Step::Concurrent),
+            2 => (0u8..3, any::<u16>()).prop_map(|(rows, tag)| Step::Peer { rows, tag }),
         ],
         3..=max_steps,
     )
@@ -280,8 +284,46 @@ async fn run_case(case: &Case, info: &mut CaseInfo, dir: std::path::PathBuf) -> 
     let mut shadow = Shadow::new().map_err(infra)?;
     let mut st = State { counter: 0 };
     let mut op = 0usize;
+    let mut peer: Option<SimNode> = None;
+    let mut peer_rows = 0i64;
+    let mut merged_peer_versions: std::collections::BTreeSet<u64> = Default::default();
     for step in &case.steps {
+        if !matches!(step, Step::Peer { .. }) && merged_peer_versions.contains(&(st.counter + 1)) {
+            info.class("request-while-a-merged-peer-version-has-our-next-number");
+            info.nontrivial = true;
+        }
         match step {
+            Step::Peer { rows, tag } => {
+                op += 1;
+                if peer.is_none() {
+                    peer = Some(SimNode::new(1, node.dir.join("peer")).await.map_err(infra)?);
+                }
+                let p = peer.as_mut().unwrap();
+                let mut stmts = vec![];
+                for _ in 0..(*rows as usize % 3 + 1) {
+                    peer_rows += 1;
+                    stmts.push(Statement::WithParams("INSERT INTO big (id, payload) VALUES (?, ?)".into(), vec![P::Integer(20_000 + peer_rows), P::Text(sim::text_val(7, op, peer_rows as usize, *tag).into())]));
+                }
+                let (status, version, _) = p.transact(stmts.clone()).await;
+                ensure!(status == 200 && version.is_some(), "valid-request-is-acknowledged", "peer write got status {status} version {version:?}");
+                let v = version.unwrap();
+                let last_seq = p.own_version_changes(v).await.map_err(infra)?.iter().map(|c| c.seq.0).max().unwrap_or(0);
+                let chunks = p.collect_broadcast(v, Some(last_seq)).await.map_err(infra)?;
+                let dbv_before = db_version(&node).await?;
+                node.deliver(chunks, klukai_types::broadcast::ChangeSource::Broadcast).await.map_err(infra)?;
+                ensure!(shadow.run(&stmts).is_ok(), "infra", "shadow rejected the peer's statements");
+                let after = node.dump_tables().await.map_err(infra)?;
+                let want = shadow.tables().map_err(infra)?;
+                ensure!(after == want, "merged-peer-version-visible", "tables differ from the shadow after merging the peer's v{v}");
+                // merging a peer's version consumes none of our own versions and announces nothing of ours
+                let dbv_after = db_version(&node).await?;
+                ensure!(dbv_after == dbv_before, "merge-consumes-no-own-version", "merging the peer's v{v} moved our crsql_db_version {dbv_before} -> {dbv_after}");
+                let stray = node.stray_broadcasts(Duration::from_millis(0)).await;
+                ensure!(stray.is_empty(), "no-stray-change-message", "merging a peer version made us announce {:?}", stray.iter().map(sim::cs_brief).collect::<Vec<_>>());
+                check_own_sync_state(&node, st.counter).await?;
+                merged_peer_versions.insert(v);
+                info.class("merged-a-peer-version");
+            }
             Step::One(req) => {
                 op += 1;
                 let stmts = statements(req, op);
